@@ -4,7 +4,7 @@
  *        c17_pcm --mkloud out.ogg ch rate n shift serial     (stream generator, see mkloud())
  *
  * case lines  "<idx> <kind> ..."           fmt = 0..7 : word = (fmt&4)?2:1, sgned = (fmt>>1)&1, bigendianp = fmt&1
- *   T <path> <fmt> <len> [half]   (half=1: ov_halfrate(vf,1) on both handles before the first read; ov_pcm_tell must then advance by
+ *   T <path> <fmt> <len> [half]   (len<0: negative-length probes interleaved with ordinary reads, see run_twin; half=1: ov_halfrate(vf,1) on both handles before the first read; ov_pcm_tell must then advance by
  *                                 exactly 2 per frame returned and the bytes are the conversion of the half-rate float decode)
  *                                 twin read-through: ov_read(A,len) against ov_read_float(B) at every position reached;
  *                                 when len is smaller than one frame of the link being read the call must be refused
@@ -155,6 +155,7 @@ static void vfilter(float **pcm,long channels,long samples,void *param){
 }
 
 #define GUARD 64
+#define NEGBUF 16384   /* checked real buffer behind the pointer when a negative length is passed */
 #define SLACK (1<<20)   /* unchecked room behind the trailing guard so that an over-long write is reported, not a heap smash */
 static inline unsigned char canary(long i){ return (unsigned char)(0xA5^(i*29)^(i>>8)); }
 static void fill_canary(unsigned char *raw,long n){ long i; for(i=0;i<n;i++)raw[i]=canary(i); }
@@ -219,14 +220,18 @@ static long float_step(OggVorbis_File *A,OggVorbis_File *B,long want,float *tmp,
   return nA;
 }
 
-static void run_twin(long idx,const char *path,int fmt,int len,int wordover,int half){
+static void run_twin(long idx,const char *path,int fmt,int reqlen,int wordover,int half){
   int word=(fmt&4)?2:1,sgned=(fmt>>1)&1,be=fmt&1; fent *f=get_file(path); memio ma,mb; OggVorbis_File A,B; tally t; char what[240];
   unsigned char *raw; long reads=0,rej=0,rejcodes[2]={0,0},frames_total=0,multi=0,maxch=0,minch=999,step=0; ogg_int64_t total; float *tmp; long tmpcap=255*128;
   int nonpos=(wordover<=0);   /* W case: word = wordover (<=0) */
+  /* reqlen<0: the negative length is passed to ov_read alternately with ordinary reads of 1..5 frames (+1 byte on odd steps), the
+     first probe right after open, the later ones while the rest of a decoded block is pending.  Behind the pointer is a real
+     buffer of NEGBUF checked bytes (+SLACK unchecked), so a library that writes anyway is observed instead of smashing the heap. */
+  int len=reqlen,blen,neg=(reqlen<0),phase=0,probe=0,probe_zero=0; long negprobes=0;
   if(nonpos)word=wordover;
   memset(&t,0,sizeof(t)); what[0]=0; t.envelope=1;
-  if(len<0){ printf("%ld bad what=badcase\n",idx); return; }
-  raw=(unsigned char*)__real_malloc(GUARD+len+GUARD+SLACK); tmp=(float*)__real_malloc(sizeof(float)*tmpcap);
+  blen=neg?NEGBUF:reqlen;
+  raw=(unsigned char*)__real_malloc(GUARD+blen+GUARD+SLACK); tmp=(float*)__real_malloc(sizeof(float)*tmpcap);
   mio_init(&ma,f->data,f->len); mio_init(&mb,f->data,f->len);
   if(ov_open_callbacks(&ma,&A,NULL,0,mio_cb_seekable)<0){ printf("%ld bad what=openA\n",idx); return; }
   if(ov_open_callbacks(&mb,&B,NULL,0,mio_cb_seekable)<0){ printf("%ld bad what=openB\n",idx); ov_clear(&A); return; }
@@ -237,21 +242,24 @@ static void run_twin(long idx,const char *path,int fmt,int len,int wordover,int 
     ogg_int64_t pa=ov_pcm_tell(&A),pb=ov_pcm_tell(&B),pa2; int ateof,ch,frame,bs=-1; long r,k;
     if(pa!=pb){ snprintf(what,sizeof(what),"twin_positions_differ:%ld:%ld",(long)pa,(long)pb); break; }
     ateof=(pa>=total); ch=chans_at(&A,pa); frame=(nonpos?1:word)*ch; if(ch>maxch)maxch=ch; if(ch<minch)minch=ch;
-    fill_canary(raw,GUARD+len+GUARD);
+    if(neg){ probe=!(phase&1); phase++; if(probe)len=reqlen; else{ step=step%5+1; len=(int)step*frame+(int)(step&1); } }
+    fill_canary(raw,GUARD+blen+GUARD);
     r=ov_read(&A,(char*)raw+GUARD,len,be,word,sgned,&bs);
-    if((k=first_touched(raw,0,GUARD))>=0||(k=first_touched(raw,GUARD+len,GUARD+len+GUARD))>=0){ snprintf(what,sizeof(what),"wrote_outside_buffer:off%ld:len%d:pos%ld",k-GUARD,len,(long)pa); break; }
+    if(probe&&r>0){ snprintf(what,sizeof(what),"negative_length_not_refused:ret%ld:len%d:frame%d:pos%ld->%ld:wrote%s",r,len,frame,(long)pa,(long)ov_pcm_tell(&A),first_touched(raw,GUARD,GUARD+blen)>=0?"yes":"no"); break; }
+    if((k=first_touched(raw,0,GUARD))>=0||(k=first_touched(raw,GUARD+blen,GUARD+blen+GUARD))>=0){ snprintf(what,sizeof(what),"wrote_outside_buffer:off%ld:len%d:pos%ld",k-GUARD,len,(long)pa); break; }
     if(nonpos||len<frame){
       long adv;
-      if(!(r<0||(r==0&&(ateof||half)))){ snprintf(what,sizeof(what),"%s_not_refused:ret%ld:len%d:frame%d:pos%ld",nonpos?"nonpositive_word":"small_buffer",r,len,frame,(long)pa); break; }
-      if((k=first_touched(raw,GUARD,GUARD+len))>=0){ snprintf(what,sizeof(what),"%s_refused_but_wrote:off%ld:ret%ld:len%d:pos%ld",nonpos?"nonpositive_word":"small_buffer",k-GUARD,r,len,(long)pa); break; }
+      if(!(r<0||(r==0&&(ateof||half)))){ snprintf(what,sizeof(what),"%s_not_refused:ret%ld:len%d:frame%d:pos%ld",neg?"negative_length":(nonpos?"nonpositive_word":"small_buffer"),r,len,frame,(long)pa); break; }
+      if((k=first_touched(raw,GUARD,GUARD+blen))>=0){ snprintf(what,sizeof(what),"%s_refused_but_wrote:off%ld:ret%ld:len%d:pos%ld",neg?"negative_length":(nonpos?"nonpositive_word":"small_buffer"),k-GUARD,r,len,(long)pa); break; }
       if(ov_pcm_tell(&A)!=pa){ snprintf(what,sizeof(what),"refused_read_moved_position:%ld->%ld",(long)pa,(long)ov_pcm_tell(&A)); break; }
       rej++; if(r==OV_EINVAL)rejcodes[0]++; else rejcodes[1]++;
+      if(probe){ negprobes++; if(r==0)probe_zero=1; continue; }   /* the next iteration is an ordinary read at the same position */
       if(ateof&&!half)break;
       step=step%41+1;
       adv=float_step(&A,&B,step,tmp,tmpcap);
       if(adv<0){ snprintf(what,sizeof(what),"float_twins_diverged:%ld:pos%ld",adv,(long)pa); break; }
       /* half-rate: where the stream ends in position units is C20's business; end of stream = the float twins deliver nothing */
-      if(r==0&&adv!=0){ snprintf(what,sizeof(what),"%s_not_refused:ret0_but_stream_continues:len%d:frame%d:pos%ld",nonpos?"nonpositive_word":"small_buffer",len,frame,(long)pa); break; }
+      if(r==0&&adv!=0){ snprintf(what,sizeof(what),"%s_not_refused:ret0_but_stream_continues:len%d:frame%d:pos%ld",neg?"negative_length":(nonpos?"nonpositive_word":"small_buffer"),len,frame,(long)pa); break; }
       if(adv==0){ if(!half&&!(ov_pcm_tell(&A)>=total))snprintf(what,sizeof(what),"float_eof_before_total:%ld<%ld",(long)ov_pcm_tell(&A),(long)total); break; }
       continue;
     }
@@ -259,13 +267,14 @@ static void run_twin(long idx,const char *path,int fmt,int len,int wordover,int 
     if(r==0){
       float **pp; long nb=ov_read_float(&B,&pp,1024,&bs);
       if(nb!=0){ snprintf(what,sizeof(what),"int_eof_but_float_continues:pos%ld:float%ld",(long)pa,nb); break; }
-      if((k=first_touched(raw,GUARD,GUARD+len))>=0){ snprintf(what,sizeof(what),"eof_but_wrote:off%ld",k-GUARD); break; }
+      if((k=first_touched(raw,GUARD,GUARD+blen))>=0){ snprintf(what,sizeof(what),"eof_but_wrote:off%ld",k-GUARD); break; }
       if(!half&&pa!=total){ snprintf(what,sizeof(what),"eof_before_total:%ld<%ld",(long)pa,(long)total); break; }
       break;
     }
+    if(probe_zero){ snprintf(what,sizeof(what),"negative_length_not_refused:ret0_but_stream_continues:len%d:pos%ld",reqlen,(long)pa); break; }
     if(r>len){ snprintf(what,sizeof(what),"retval_exceeds_length:%ld>%d:pos%ld",r,len,(long)pa); break; }
     if(r%frame){ snprintf(what,sizeof(what),"retval_not_whole_frames:%ld%%%d:len%d:pos%ld",r,frame,len,(long)pa); break; }
-    if((k=first_touched(raw,GUARD+r,GUARD+len))>=0){ snprintf(what,sizeof(what),"wrote_beyond_returned_count:off%ld:ret%ld:len%d:pos%ld",k-GUARD,r,len,(long)pa); break; }
+    if((k=first_touched(raw,GUARD+r,GUARD+blen))>=0){ snprintf(what,sizeof(what),"wrote_beyond_returned_count:off%ld:ret%ld:len%d:pos%ld",k-GUARD,r,len,(long)pa); break; }
     {
       long fr=r/frame,got=0;
       pa2=ov_pcm_tell(&A);
@@ -289,7 +298,7 @@ static void run_twin(long idx,const char *path,int fmt,int len,int wordover,int 
   ov_clear(&A); ov_clear(&B);
   printf("%ld %s",idx,(what[0]||t.bad2)?"bad":"ok");
   print_tally(&t);
-  printf(" reads=%ld rej=%ld einval=%ld frames=%ld multi=%ld maxch=%ld minch=%ld total=%ld half=%d what=%s\n",reads,rej,rejcodes[0],frames_total,multi,maxch,minch,(long)total,half,what[0]?what:"-");
+  printf(" reads=%ld rej=%ld einval=%ld frames=%ld multi=%ld maxch=%ld minch=%ld total=%ld half=%d negprobes=%ld what=%s\n",reads,rej,rejcodes[0],frames_total,multi,maxch,minch,(long)total,half,negprobes,what[0]?what:"-");
   __real_free(raw); __real_free(tmp);
 }
 
